@@ -36,6 +36,19 @@ def reg_shim_overlay(workdir):
     return {os.path.join(repo, "actor/registry.go"): dst}
 
 
+def safemap_shim_overlay(workdir):
+    """safemap.go built with the yielding sync shim (import line only)."""
+    repo = os.environ.get("HW_REPO", "/repo")
+    mod = "github.com/anthdm/hollywood/internal/vshim"
+    src = open(os.path.join(repo, "safemap/safemap.go")).read()
+    new = re.sub(r'^import "sync"\s*$', 'import sync "%s/shimsync"' % mod, src, flags=re.M)
+    new = re.sub(r'^(\s*)"sync"\s*$', r'\1sync "%s/shimsync"' % mod, new, flags=re.M)
+    dst = os.path.join(workdir, "shim_safemap.go")
+    with open(dst, "w") as f:
+        f.write(new)
+    return {os.path.join(repo, "safemap/safemap.go"): dst}
+
+
 _SCHED_RULE = ("sched: real inbox.go+ringbuffer.go under the deterministic scheduler; systematic enumeration by iterative preemption "
                "bounding over 6 small configurations (1-2 senders x 1-2 messages, capacity 1-2, batch 1/2/4096, with and without a Stop) plus seeded "
                "random schedules over 1-3 senders x 1-4 messages, capacity 1..8, batch 1/2/3/4096; every execution is replayed step by step in the "
@@ -65,6 +78,15 @@ _ENGINE_ASSUME = ["the event stream's inbox order is the broadcast order (C01); 
                   "a subscriber stopping between the reachability test and the forward is a race outside the sequential model (it costs one dead letter, then the subscriber is dropped)"]
 
 PROPS = {
+    "C08": dict(lean_modules=["HW.Props.C08"], facts=True,
+                streams=[dict(name="tree", pkg="actor", test="TestVerifTree", shrink_key="ops", timeout=2400, timeout_thorough=3400),
+                         dict(name="childsched", pkg="actor", test="TestVerifChildSched", shrink_key="sched", extra_overlay=safemap_shim_overlay)],
+                rule="tree: real engine and actors; seeded random supervision trees (depth <= 4, fan-out <= 4, built with SpawnChild) and sequential stop / poison / self-stop / crash(budget 0) of arbitrary nodes "
+                     "with Children()/Parent() queries in between; a global log records the order in which Stopped is handled and whether the actor was already unregistered; the actual order is judged by the "
+                     "post-order acceptor, the stopped set / children lists are compared with the model; childsched: Context.Children() against concurrent Set/Delete on the real safemap.go under the deterministic "
+                     "scheduler, all interleavings of 5 small programs; non-trivial = a shutdown of a node (tree) / >= 3 steps (childsched)",
+                assumptions=["no third party stops a descendant while its ancestor is shutting down (known finding KF-D12 otherwise)",
+                             "sibling names are distinct (a second SpawnChild of a taken name is a duplicate id, C10)"]),
     "C19": dict(lean_modules=["HW.Props.C19"],
                 streams=[dict(name="clustersys", pkg="cluster", test="TestVerifClusterSys", shrink_key="ops", timeout=2400, timeout_thorough=3400)],
                 rule="clustersys: 1-3 real Cluster/Agent instances on real engines wired by an in-memory bus (request/response immediate, Activation/Deactivation/ActorTopology for other nodes held and released "
@@ -147,7 +169,7 @@ PROPS = {
 # Properties without a check yet are listed here (kept current; see DESIGN.md section 7).
 _PENDING = "machinery for this property is not built yet in this revision (planned: Lean model + theorem + correspondence, see DESIGN.md section 4); not claimed until its check exists"
 # checks that exist but whose proofs are not complete yet are not claimed in MANIFEST.json
-NOT_READY = {"C19"}
+NOT_READY = set()
 NOT_APPLICABLE = {pid: _PENDING for pid in ["C%02d" % i for i in range(1, 21)] if pid not in PROPS or pid in NOT_READY}
 
 MANIFEST_TEXT = {
@@ -290,5 +312,22 @@ MANIFEST_TEXT = {
         design_ref="DESIGN.md section 4, C11",
         note="Trusted: Lean kernel; context.WithTimeout / the Go timer (the deadline is an input of the model); channel semantics of the 1-slot mailbox.",
         technique="Lean 4 invariant over op sequences (buffered value was sent to that id; ids fresh) + history-level differential correspondence",
+    ),
+    "C08": dict(
+        text="Machine-checked (partial): for every tree shape (any depth, fan-out, sibling order) the shutdown trace of process.cleanup's recursion is a post-order: when a node handles Stopped it is unregistered and every descendant "
+             "has handled Stopped and been unregistered; each actor handles Stopped once; the parent's context is done last. The full statement (third parties poisoning descendants concurrently) is false for the code: known finding "
+             "KF-D12, replayed on every run. Tied to the code by random supervision trees on the real engine judged by the same post-order acceptor, and by Children() vs concurrent Set/Delete on the real safemap.go under the scheduler shim.",
+        design_ref="DESIGN.md section 4, C08; section 5 (D12, D14, D15)",
+        note="Partial: no third party stops a descendant during its ancestor's shutdown. Trusted: Lean kernel; context.WithCancel / Done(); the sequentialisation 'parent waits for each child in turn' is read off cleanup().",
+        technique="Lean 4 mutual structural induction over rose trees (post-order acceptor) + history-level and schedule-level differential correspondence",
+    ),
+    "C19": dict(
+        text="Machine-checked over a multi-node model with a pool of in-flight notifications delivered in arbitrary order: Activate returns nil and changes nothing if the id is known or no member advertises the kind; otherwise "
+             "the PID is kind/id on a member that registered the kind, chosen among those advertising it, with at most one spawn; from a consistent cluster, after delivering the notifications in ANY order every member resolves "
+             "the id to that PID and the cluster is consistent again; Deactivate removes the entry everywhere; a leaving member's activations are purged. Tied to the code by real Cluster/Agent instances on an in-memory bus whose "
+             "notification arrival order is seeded and replayed exactly by the model.",
+        design_ref="DESIGN.md section 4, C19",
+        note="Trusted: Lean kernel; well-formedness (kind names without '/', distinct hosts, advertised kinds = registered kinds); the remote transport (C15/C17) and request/response (C11) by composition; 'a member that joins later learns all' is covered by the correspondence stream, not by a theorem.",
+        technique="Lean 4 invariant over a broadcast round (order-independent delivery) + history-level differential correspondence with replayed arrival order",
     ),
 }
